@@ -484,6 +484,23 @@ def main(argv):
     return run_check(prop, tier, seed)
 
 
+def trim_go_cache(limit_gb=40):
+    """disk space is limited: the Go build cache grows with every distinct checkout path a check is run against
+    (scratch worktrees of seeded changes); empty it when it has grown beyond limit_gb (builds then start cold)"""
+    try:
+        rc, out, _ = sh(["go", "env", "GOCACHE"], env=goenv(), timeout=60)
+        d = out.strip().splitlines()[-1] if rc == 0 and out.strip() else ""
+        if not d or not os.path.isdir(d):
+            return
+        rc, out, _ = sh(["du", "-s", "-BG", d], timeout=300)
+        gb = int(out.split()[0].rstrip("G")) if rc == 0 and out.split() else 0
+        if gb > limit_gb:
+            with Lock("gocache"):
+                sh(["go", "clean", "-cache"], env=goenv(), timeout=1800)
+    except Exception:
+        pass
+
+
 def run_check(prop, tier, seed):
     t0 = time.time()
     cfg = P.PROPS[prop]
@@ -495,6 +512,7 @@ def run_check(prop, tier, seed):
     rundir = os.path.join(BUILD, "run", "%s-%d" % (prop, os.getpid()))
     shutil.rmtree(rundir, ignore_errors=True)
     os.makedirs(rundir)
+    trim_go_cache()
     global ORACLE
     # 1+2. ONE critical section: regenerate Gen/* from REPO, build + audit the theorems against exactly
     # that Gen, and take a private copy of the oracle built from it (other runs may target other checkouts)
